@@ -158,6 +158,48 @@ def enc_class(raw):
     return 'legacy'
 
 
+ICL_EXTRA = re.compile(r'^(vpermb|vpermi2b|vpermt2b|vpmultishiftqb|vpshld[vwdq]*|vpshrd[vwdq]*|vpcompress[bw]|vpexpand[bw]|vpdpbusds?|'
+                       r'vpdpwssds?|vpopcnt[bwdq]|vpshufbitqmb)$')
+BMI2 = {'mulx', 'rorx', 'sarx', 'shlx', 'shrx', 'pdep', 'pext', 'bzhi'}
+
+
+def isa_classes(ins):
+    """instruction-set extensions (named like the library's IMB_FEATURE_* bits) an instruction needs beyond SSE4.2"""
+    mn = ins['mn']
+    if mn.startswith('rep_'):
+        mn = mn[4:]
+    enc = ins.get('enc', 'legacy')
+    ops = ins['ops']
+    out = set()
+    wide = 'ymm' in ops or 'zmm' in ops
+    if enc == 'evex' or 'zmm' in ops or re.search(r'\bk[0-7]\b', ops):
+        out.add('AVX512_SKX')
+    elif enc == 'vex':
+        out.add('AVX2' if ('ymm' in ops) else 'AVX')
+    base = mn[1:] if mn.startswith('v') else mn
+    if base in ('aesenc', 'aesenclast', 'aesdec', 'aesdeclast', 'aesimc', 'aeskeygenassist'):
+        out.add('VAES' if (wide and mn.startswith('v')) else 'AESNI')
+    elif re.match(r'^pclmul\w*qdq$', base):
+        out.add('VPCLMULQDQ' if (wide and mn.startswith('v')) else 'PCLMULQDQ')
+    elif mn.startswith(('sha1', 'sha256')):
+        out.add('SHANI')
+    elif mn.startswith('vsha512'):
+        out.add('SHA512NI')
+    elif mn.startswith('vsm3'):
+        out.add('SM3NI')
+    elif mn.startswith('vsm4'):
+        out.add('SM4NI')
+    elif base.startswith('gf2p8'):
+        out.add('GFNI')
+    elif mn.startswith('vpmadd52'):
+        out.add('AVX512_IFMA' if enc == 'evex' else 'AVX_IFMA')
+    elif mn in BMI2:
+        out.add('BMI2')
+    elif ICL_EXTRA.match(mn):
+        out.add('AVX512_ICL')
+    return out
+
+
 def parse_obj(path, want_raw=False):
     """-> insns {addr: dict}, labels {addr:[names]}, funcs {name: addr}, syms {name: dict}"""
     out = subprocess.run(['objdump', '-D', '-r', '-M', 'intel', '-j', '.text', '--show-raw-insn', '-w', path],
